@@ -63,6 +63,8 @@ def check(rep: Report, ctx: Ctx) -> None:
     r111(rep, ctx)
     r112(rep, ctx)
     r113(rep, ctx)
+    r114(rep, ctx)
+    r115(rep, ctx)
 
 
 def r18(rep: Report, ctx: Ctx) -> None:
@@ -774,3 +776,30 @@ def r113(rep: Report, ctx: Ctx) -> None:
              "body's dummy end (recorded before the exit edges are cut)", 1)
     from .c07 import exit_fanout_recorded
     exit_fanout_recorded(rep, ctx, "R1.13")
+
+
+def r114(rep: Report, ctx: Ctx) -> None:
+    """(shared with C05 R5.15)  "graph walk building the block structure":
+    a logic block whose index maps drift after a pop / partial merge nests
+    the wrong alternatives -- the diagram then rejects jobs it was learned
+    from."""
+    rep.rule("R1.14", "popping a finished path and merging paths partially "
+             "keep the per-path lists and index maps of a logic block "
+             "consistent", 12)
+    from .c05 import reshape_lockstep
+    reshape_lockstep(rep, ctx, "R1.14")
+
+
+def r115(rep: Report, ctx: Ctx) -> None:
+    """(shared with C07 R7.12-R7.16)  Acceptance of a job with a loop needs
+    the evidence at the loop's boundary to survive the extraction: the dummy
+    start / end of the body, the loop node, and the rewired parent."""
+    rep.rule("R1.15", "loop extraction carries the boundary evidence over "
+             "(dummy start / end, loop node, rewired parent, break filter)",
+             60)
+    from . import c07
+    c07.loop_boundary_evidence(rep, ctx, "R1.15")
+    c07.parent_rewiring(rep, ctx, "R1.15")
+    c07.rewiring_order(rep, ctx, "R1.15")
+    from .loopspec import TABLE, check_table
+    check_table(rep, ctx, "R1.15", list(TABLE))
